@@ -240,6 +240,11 @@ def contract(m: Model, op, recursive=True, full=False):
                 for rel, kind in op[1]:
                     R.add(ev("created", kind == "d", d + "/" + rel, "", True))
     elif k == "rmroot":
+        # the content is removed bottom-up, then the root itself: exactly one DirDeleted(root), nothing outside the scope
+        for q in m.subtree(ROOT):
+            if in_scope(q, recursive):
+                R.add(ev("deleted", m.kind(q) == "d", q))
+                dirmod(parent(q))
         R.add(ev("deleted", True, ROOT))
     A |= R
     return R, A
